@@ -846,6 +846,12 @@ func main() {
 	case "watch-replay":
 		watchReplay(os.Args[2])
 		return
+	case "conc":
+		concMain(os.Args[2:])
+		return
+	case "conc-replay":
+		concReplay(os.Args[2])
+		return
 	case "replay":
 		b, err := os.ReadFile(os.Args[2])
 		if err != nil {
